@@ -62,12 +62,26 @@ Print Assumptions C16_sites.
 
 (* together: at every data site, for every data string, the generated line contains a string
    literal denoting exactly that string *)
-Theorem C16_site_literal : forall st, In st splice_sites ->
+Theorem C16_site_literal : forall st, In st splice_sites -> s_kind st <> KGuardedIdent ->
   forall p d rest, oracle_ok p -> wf_str d ->
   lex_string (site_text (s_kind st) p d ++ codes (s_after st) ++ rest) = Some (d, codes (s_after st) ++ rest)
   /\ before_ok (codes (s_before st)) = true.
 Proof. exact site_literal. Qed.
 Print Assumptions C16_site_literal.
+
+(* the only other admissible kind: a raw splice guarded (in the generator's source, recognised by
+   K10) by isidentifier() / not iskeyword() / NFKC-or-ASCII on the same value; identifier characters
+   are inert for the tokenizer (ident_char_inert) and the surrounding text does not continue the name *)
+Theorem C16_site_guarded : forall st, In st splice_sites -> s_kind st = KGuardedIdent ->
+  before_ok (codes (s_before st)) = true /\ after_ident_ok (codes (s_after st)) = true
+  /\ after_ok (codes (s_after st)) = true.
+Proof. exact site_guarded. Qed.
+Print Assumptions C16_site_guarded.
+
+Theorem C16_ident_char_inert : forall c, is_ident_char c = true ->
+  is_quote c = false /\ c <> BS /\ c <> 10 /\ c <> 13 /\ c <> 35 /\ c <> 32 /\ c <> 0.
+Proof. exact ident_char_inert. Qed.
+Print Assumptions C16_ident_char_inert.
 
 Theorem C16_site_literal_bytes : forall st, In st splice_sites -> s_kind st = KRepr ->
   forall d rest, wf_bytes d ->
@@ -86,5 +100,5 @@ Example C16_nonvacuous_oracle : oracle_ok (fun c => negb (is_surrogate c)).
 Proof. intros c H. rewrite H. reflexivity. Qed.
 Example C16_nonvacuous_sites : Nat.leb 20 (List.length splice_sites) = true /\
   has_origin "field alias" && has_origin "Config.aliases value" && has_origin "TypedDict key"
-  && has_origin "discriminator field" && has_origin "Literal value" = true.
+  && has_origin "discriminator field" && has_origin "Literal value" && has_origin "enum member name" = true.
 Proof. split; [exact sites_nonempty | exact sites_cover]. Qed.
